@@ -374,3 +374,8 @@ impl<K, V> Default for AddrMapInner<K, V> {
         }
     }
 }
+
+// Verification hook (guarded): Kani harnesses live outside the repository.
+#[cfg(kani)]
+#[path = "/verif/kani/mapped_addrs.rs"]
+mod verif_kani;
